@@ -3,7 +3,7 @@ from . import modecommon, C03
 from ..facts import Module
 
 LEVEL = "other"
-RM = {"RT": "R-C08-PASS", "LEN": "R-C08-LEN", "ADVANCE": "R-C08-LOCKSTEP", "TAGPOS": "R-C08-END", "INPLACE": "R-C08-INPLACE"}
+RM = {"RT": "R-C08-PASS", "LEN": "R-C08-LEN", "ADVANCE": "R-C08-LOCKSTEP", "TAGPOS": "R-C08-END", "INPLACE": "R-C08-INPLACE", "INRANGE": "R-C08-READS"}
 PAIR = {"MODE": "R-C08-PASS", "PREFIX": "R-C08-PASS1", "NONCE2": "R-C08-NONCE"}
 
 
@@ -16,6 +16,8 @@ def run(ck, build):
     ck.rule("R-C08-PASS", "RELATIONAL, per path class of the keystream pass: same permutation call(s) in both directions (callee, rounds, key, input state); decrypt applied to encrypt's output-byte terms gives "
             "back the plaintext bytes bit for bit; the state after a whole block agrees; decrypt returns check_tag's verdict on the regenerated tag")
     ck.rule("R-C08-LOCKSTEP", "cursors and remaining length advance in lock-step; residues 0..3 each handled once")
+    ck.rule("R-C08-READS", "every word and tail of the keystream pass reads only the input bytes of its own segment (decrypt: plus the 8 tag bytes behind it): a read past the message can fault "
+            "at the end of a mapping, and otherwise makes the result depend on memory that is no input")
     ck.rule("R-C08-END", "received tag read at cursor + r = c + clen - 8 (8 bytes)")
     ck.rule("R-C08-INPLACE", "load-before-store per byte in the keystream pass; the tag bytes are copied into the local nonce before the first plaintext store")
     ck.rule("R-C08-GUARD", "inputs shorter than 8 bytes are refused before any access; every other path returns check_tag's verdict (C03's rules on the three SIV decrypt functions)")
